@@ -27,7 +27,7 @@ def main():
         elif a[i] == "--skip-confirm": skip_confirm = True; i += 1
         else: props.append(a[i]); i += 1
     patch = os.path.join(mdir, "patch.diff")
-    meta = {"seeded_id": sid, "mutant_dir": mdir, "properties_checked": props, "when": time.strftime("%Y-%m-%d %H:%M:%S")}
+    meta = {"seeded_id": sid, "properties_checked": props, "when": time.strftime("%Y-%m-%d %H:%M:%S")}
     # 1. confirmation in the scratch worktree
     if wt and not skip_confirm:
         sh("git checkout -- . && git clean -fdq packages", wt)
@@ -73,9 +73,10 @@ def main():
     # 3. store
     dst = os.path.join(ROOT, "seeded", sid)
     os.makedirs(dst, exist_ok=True)
-    shutil.copy(patch, os.path.join(dst, "patch.diff"))
-    for f in ("demo.rs", "README.md"):
-        if os.path.exists(os.path.join(mdir, f)): shutil.copy(os.path.join(mdir, f), os.path.join(dst, f))
+    if os.path.abspath(mdir) != os.path.abspath(dst):
+        shutil.copy(patch, os.path.join(dst, "patch.diff"))
+        for f in ("demo.rs", "README.md"):
+            if os.path.exists(os.path.join(mdir, f)): shutil.copy(os.path.join(mdir, f), os.path.join(dst, f))
     old = {}
     mp = os.path.join(dst, "meta.json")
     if os.path.exists(mp): old = json.load(open(mp))
